@@ -66,3 +66,21 @@ package ssh
 //@   loop 2: decreases pdrem(decoder)
 //@   loop 3: invariant pdOK(decoder)
 //@   loop 3: decreases pdrem(decoder)
+//
+// ---- SSH proxy (property C15): the backend is logged in to with the credentials the client presented ----
+// The password callback asks the director for the backend once, for this client's connection, dials
+// nothing itself, and performs one client handshake on that backend connection with the user name and the
+// password the client presented (ghost log of ssh.NewClientConn); the attempt is reported by one event.
+//@ ghost var nbackendssh int
+//@ func (*sshProxyService).Handle$2
+//@   callcount Director.Dial: nbackendssh
+//@   physical 0 <= nbackendssh && nbackendssh < 1<<48 && 0 <= nsends && nsends < 1<<48 && 0 <= nclienthandshakes && nclienthandshakes < 1<<48
+//@   callpre Director.Dial: a1 == conn
+//@   callpre net.Dial: false
+//@   callpre NewClientConn: c == caller.cconn
+//@   ensures [one-backend] nbackendssh == old(nbackendssh) + 1
+//@   ensures [one-handshake] nclienthandshakes <= old(nclienthandshakes) + 1
+//@   ensures [same-credentials] nclienthandshakes == old(nclienthandshakes) + 1 ==> chuser[old(nclienthandshakes)] == cmuser(cm) && chpw[old(nclienthandshakes)] == old(str(password))
+//@   ensures [logged-in-or-refused] result1 == nil ==> nclienthandshakes == old(nclienthandshakes) + 1
+//@   ensures [reported] nsends == old(nsends) + 1
+//@   modifies *
